@@ -33,7 +33,7 @@ type BP struct {
 type BB struct {
 	D   int   `json:"d,omitempty"` // on-group (dc); only in cases with on()
 	G   int   `json:"g"`           // group (host)
-	Gap int64 `json:"gap"` // seconds after the previous batch of this parent (0: same query as the previous batch, another group)
+	Gap int64 `json:"gap"`         // seconds after the previous batch of this parent (0: same query as the previous batch, another group)
 	Pts []BP  `json:"pts"`
 }
 
